@@ -166,7 +166,7 @@ var svgAttrs = []string{"d", "points", "transform", "viewBox", "preserveAspectRa
 
 var svgFrags = []string{"M", "m", "L", "l", "H", "h", "V", "v", "C", "c", "S", "s", "Q", "q", "T", "t", "A", "a", "Z", "z", "0", "1", "-1", "1.5", ".5", "-.5", "1e3", "1e-3", "1e40", "1-2", "1.5.5", "011", "1,2", ",", " ", "  ", "\n", "1 1 0 0 1 5 5", "1 1 0 1 0 5 5", "10 10", "rotate(30)", "rotate(30 1)", "rotate(30 1 2)", "scale(2)", "scale()", "translate(1,2)", "translate(1 2 3)", "skewX(10)", "skewY(", "matrix(1 0 0 1 0 0)", "matrix(1 0)", "bogus(1)", "(", ")", "xMidYMid", "xMinYMax slice", "none", "meet", "slice", "bogus", "0 0 10 10", "0 0 0 0", "0 0 -1 -1", "0 0 10", "10px", "10%", "1em", "1ex", "-10", "auto", "red", "#f00", "url(#g)", "url(#nope)", "url(", "url(#g) red", "currentColor", "rgb(1,2,3)", "rgb(", "5 2", "5,2,1", "0 0", "-1 2", "none", "fill: red; stroke: blue", "fill:", ":", ";", "fill: red !important", "NaN", "Infinity", "inf", "e", "+", "-", ".", "1e", "1e+", "٣", "é", "\x00", "#u", "#", "mem://doc/pic.svg#x", "data:image/svg+xml,<svg/>"}
 
-var svgGrammarAttrs = []string{"d", "d", "d", "d", "points", "points", "transform", "transform", "gradientTransform", "patternTransform", "viewBox", "preserveAspectRatio", "stroke-dasharray", "rotate", "dx", "x", "orient"}
+var svgGrammarAttrs = []string{"d", "d", "d", "d", "points", "points", "transform", "transform", "gradientTransform", "patternTransform", "viewBox", "preserveAspectRatio", "stroke-dasharray", "stroke-dasharray", "stroke-dashoffset", "rotate", "dx", "x", "orient", "clip-path", "mask", "filter", "fill", "stroke", "marker-start", "marker-mid", "marker-end", "href"}
 
 var svgNums = []string{"0", "1", "-1", "5", "10", "2.5", ".5", "-.5", "1e2", "1e-2", "-0", "+3", "100", "1e40", "0.0001"}
 
@@ -224,6 +224,12 @@ func svgGrammarValue(r *rand.Rand, attr string) string {
 		sb.WriteString(nums(r.Intn(6)))
 	case "preserveAspectRatio":
 		sb.WriteString(gen.Pick(r, []string{"", "defer ", "x"}) + gen.Pick(r, []string{"none", "xMinYMin", "xMidYMid", "xMaxYMax", "xMidYMi", "xMid", "XMIDYMID", ""}) + gen.Pick(r, []string{"", " meet", " slice", " bogus", " ", " meet slice"}))
+	case "clip-path", "mask", "filter", "fill", "stroke", "marker-start", "marker-mid", "marker-end", "href":
+		// references: every way of writing (and of not finishing) a url() with its quotes
+		body := gen.Pick(r, []string{"", " ", "#g", "#m", "#nope", "#", "\"", "'", "\"\"", "''", "\"#g\"", "'#g'", "\"#g", "#g\"", "'#g\"", "\" \"", "a\"b", "\\", "mem://doc/pic.svg#x"})
+		sb.WriteString(gen.Pick(r, []string{"url(", "url(", "URL(", "url (", "uri("}) + body + gen.Pick(r, []string{")", ")", "", " )", ") red", ") none"}))
+	case "stroke-dashoffset":
+		sb.WriteString(gen.Pick(r, []string{"-1", "-5", "0", "3", "-0.5", "1e3", "-1e3", "50%", "-50%"}))
 	default:
 		sb.WriteString(nums(r.Intn(5)) + gen.Pick(r, []string{"", "%", "px", "em", " auto", "auto"}))
 	}
